@@ -79,7 +79,8 @@ def gen_stmts(rng, d, vars_, n):
         elif r < 0.86:
             out.append("foreach ([1, 2] as $fk => $fv) {\n%s\n}" % "\n".join(gen_stmts(rng, d - 1, vars_ + ["$fk", "$fv"], 1)))
         elif r < 0.93:
-            out.append("try {\n%s\nthrow new Exception(\"e\");\n} catch (Exception $e) {\n%s\n} finally {\n%s\n}" % (
+            catch = rng.choice(["Exception $e", "Exception $e", "Exception", "f | Exception $e", "f | Exception"])
+            out.append(("try {\n%s\nthrow new Exception(\"e\");\n} catch (" + catch + ") {\n%s\n} finally {\n%s\n}") % (
                 "\n".join(gen_stmts(rng, d - 1, vars_, 1)), "\n".join(gen_stmts(rng, d - 1, vars_, 1)),
                 "\n".join(gen_stmts(rng, d - 1, vars_, 1))))
         elif EXT[0] and r < 0.965:
@@ -164,6 +165,24 @@ def arraylit_sources():
                 out.append(("%s:%s" % (name, vname), wrap % render(el, sep)))
             if sep == ":":
                 out.append(("%s-brace:%s" % (name, vname), "$v0 = %s ;" % render(el, sep, "{", "}")))
+    return out
+
+
+def heredoc_sources():
+    """heredocs and nowdocs with every combination of closing-label indentation and body-line shape (shorter than the
+    indentation, blank, blanks only, tabs, exactly as long, longer; with and without interpolation), executed"""
+    out = []
+    bodies = ["ab", "  ab", "      ab", "", " ", "   ", "\t", "\tab", "a", "      ", "  {$v1} x", "$v1", "        deep $v1 {$v2}"]
+    for nowdoc in (False, True):
+        for ind in ("", " ", "  ", "      ", "\t", " \t ", "        "):
+            for k, b in enumerate(bodies):
+                lines = [bodies[(k + 1) % len(bodies)], b, ind + "tail"]
+                for order in (lines, lines[::-1], [b]):
+                    label = "'EOT'" if nowdoc else "EOT"
+                    src = "$v1 = 1; $v2 = 2;\n$h = <<<%s\n%s\n%sEOT;\necho strlen($h);\n" % (label, "\n".join(order), ind)
+                    out.append(("%s:ind%d:body%d" % ("nowdoc" if nowdoc else "heredoc", len(ind), k), src))
+            out.append(("%s:ind%d:empty" % ("nowdoc" if nowdoc else "heredoc", len(ind)),
+                        "$h = <<<%s\n%sEOT;\necho strlen($h);\n" % ("'EOT'" if nowdoc else "EOT", ind)))
     return out
 
 
@@ -271,7 +290,7 @@ def main(ck):
         for a in alpha:
             cases.append({"hex": a.hex(), "mode": "plain", "origin": "alpha1", "mut": "-", "run": True})
             cases.append({"hex": (b"<?php " + a).hex(), "mode": "template", "origin": "alpha1", "mut": "-", "run": True})
-            for b in (alpha if not quick else rng.sample(alpha, 30)):
+            for b in (alpha if not quick else rng.sample(alpha, 20)):
                 m = "template" if rng.random() < 0.25 else "plain"
                 cases.append({"hex": ((b"<?php " if m == "template" else b"") + a + b" " + b).hex(), "mode": m, "origin": "alpha2",
                               "mut": "-", "run": True})
@@ -346,6 +365,10 @@ def main(ck):
                 bases.append((b"<html>\n<?php\n" + gen_program(rng).encode() + b"?>\n</html>\n", "template", "generated-t", True))
             else:
                 bases.append((gen_program(rng).encode(), "plain", "generated", True))
+        for k, (tag, src) in enumerate(heredoc_sources()):
+            m = "template" if k % 3 == 0 else "plain"
+            cases.append({"hex": ((("<?php\n" if m == "template" else "") + src)).encode().hex(), "mode": m, "origin": "heredoc", "mut": tag,
+                          "run": True})
         for tag, src in arraylit_sources():
             cases.append({"hex": ("function f($x) { return $x; } $v1 = 1; $v2 = 2; $v3 = 3; " + src).encode().hex(), "mode": "plain",
                           "origin": "arraylit", "mut": tag, "run": True})
@@ -497,6 +520,19 @@ def main(ck):
             if a is None or b is None:
                 ck.violation("time:%s:no-answer" % name, {"case": {"shape": name, "n": n0}, "clause": "no parse answer for the timing shape"})
                 continue
+            if b / max(a, 0.5) > 9.0 and b > 200.0:
+                # confirm alone (one process, five repetitions each, minimum): on a loaded machine three parallel
+                # repetitions are not enough to rule out a starved worker
+                mode = "template" if name in ("alt-syntax", "html", "nl-assign-t") else "plain"
+                again = {}
+                for n in (n0, 4 * n0):
+                    src = shapes[name](n // slow.get(name, 1))
+                    rs = lexrun.run(binary, [{"hex": src.hex(), "mode": mode, "parse": True, "run": False, "budget_ms": 120000,
+                                              "maxtoks": 1}] * 5, nproc=1)
+                    ms = [o["pms"] for o in rs if o.get("pms") is not None and o.get("parse") in ("ok", "error")]
+                    again[n] = min(ms) if ms else None
+                if again[n0] is not None and again[4 * n0] is not None:
+                    a, b = again[n0], again[4 * n0]
             ratios[name] = [round(a, 2), round(b, 2), round(b / max(a, 0.5), 2)]
             if b / max(a, 0.5) > 9.0 and b > 200.0:
                 ck.violation("time:%s" % name, {"case": {"shape": name, "n": n0, "text": shapes[name](3).decode("latin-1")},
@@ -507,7 +543,7 @@ def main(ck):
     # ---- tie: lexer model vs real lexer on (a size-limited part of) this distribution
     tie = [i for i, c in enumerate(cases) if len(c["hex"]) <= (1000 if quick else 4000) and not outs[i].get("dead")
            and not outs[i].get("exited")]
-    cap = 1200 if quick else 20000
+    cap = 900 if quick else 20000
     if len(tie) > cap:
         tie = sorted(rng.sample(tie, cap))
     order = sorted(tie, key=lambda i: -len(cases[i]["hex"]))
